@@ -1,3 +1,4 @@
 pub mod prog;
 pub mod lang;
 pub mod body;
+pub mod full;
